@@ -31,8 +31,8 @@
 	}
 	fn hex(b: &[u8]) -> String {
 		let mut s = String::new();
-		for x in b.iter().take(700) { s += &format!("{x:02x}"); }
-		if b.len() > 700 { s += &format!("...(+{} bytes)", b.len() - 700); }
+		for x in b.iter().take(400) { s += &format!("{x:02x}"); }
+		if b.len() > 400 { s += &format!("...(+{} bytes)", b.len() - 400); }
 		s
 	}
 
@@ -188,6 +188,10 @@
 			}
 		}
 	}
+	/// `At::name` is the content of the Utf8 entry; a suffix after U+0001 asks for a further Utf8 entry with the same content (4.4 does not
+	/// forbid two equal entries, and an attribute may name either)
+	fn utf8_of(name: &str) -> Vec<u8> { name.split('\u{1}').next().unwrap_or("").as_bytes().to_vec() }
+	fn again(a: &At, n: u8) -> At { At { name: format!("{}\u{1}{n}", a.name), body: a.body.clone() } }
 	struct Resolved { pool: Vec<K>, names: HashMap<String, u16> }
 	/// pool = front ++ base ++ mid ++ first attribute name ++ after_first_name ++ other attribute names (order of first use) ++ back;
 	/// the index of an entry is 1 + the slots in front of it
@@ -204,7 +208,7 @@
 			let index = 1 + slots(&pool);
 			assert!(index <= 0xffff, "harness: pool too large");
 			names.insert(name.clone(), index as u16);
-			pool.push(K::Utf8(name.as_bytes().to_vec()));
+			pool.push(K::Utf8(utf8_of(name)));
 		}
 		if used.len() <= 1 { pool.extend(c.layout.after_first_name.iter().cloned()); }
 		pool.extend(c.layout.back.iter().cloned());
@@ -538,13 +542,13 @@
 		let (bytes, model) = (cls_bytes(c, &r), cls_value(c, &r));
 		if file_side {
 			match o_walk(&bytes) {
-				Err(e) => { t.fail(format!("{desc} file={}", hex(&bytes)), &format!("harness: the own walker refuses the generated file: {e}")); return; },
+				Err(e) => { t.fail(desc.to_string(), &format!("harness: the own walker refuses the generated file: {e} || file={}", hex(&bytes))); return; },
 				Ok(w) => if w.pool_entries != r.pool.len() || w.fields != c.fields.len() || w.methods != c.methods.len() || w.attrs != c.attrs.len() {
-					t.fail(format!("{desc} file={}", hex(&bytes)), "harness: the own walker counts other tables than the model has"); return; },
+					t.fail(desc.to_string(), "harness: the own walker counts other tables than the model has"); return; },
 			}
 		}
 		let bad = clauses(&bytes, &model, file_side);
-		if !bad.is_empty() { t.fail(format!("{desc} file[{} bytes]={}", bytes.len(), hex(&bytes)), &bad.join(" || ")); }
+		if !bad.is_empty() { t.fail(desc.to_string(), &format!("{} || the file ({} bytes) = {}", bad.join(" || "), bytes.len(), hex(&bytes))); }
 	}
 	fn check(t: &mut Tally, desc: &str, c: &Cls) { let nontrivial = !c.attrs.is_empty() || c.fields.iter().chain(c.methods.iter()).any(|m| !m.attrs.is_empty()); check_as(t, desc, c, true, nontrivial); }
 
@@ -758,31 +762,33 @@
 		c.attrs = vec![at(Body::SourceFile(x.i(B_X)))];
 		c
 	}
-	/// every sequence of up to `max` menu entries (only those with an 8-byte constant if `need_wide`), sequences of up to 3 entries
-	/// at each of the 4 places of the pool, longer ones between the base and the attribute names
+	/// every sequence of up to `max` menu entries, shortest first (only those with an 8-byte constant if `need_wide`); sequences of up to
+	/// 3 entries at each of the 4 places of the pool, longer ones between the base and the attribute names
 	fn pools(t: &mut Tally, max: usize, wide: bool, need_wide: bool) {
 		let n = pool_menu(&X0, wide).len();
-		let mut seq: Vec<usize> = Vec::new();
-		fn rec(t: &mut Tally, n: usize, left: usize, seq: &mut Vec<usize>, wide: bool, need_wide: bool) {
-			let has_wide = seq.iter().any(|i| *i >= 19);
-			if has_wide || !need_wide {
-				for place in 0..4 {
-					if place != 1 && seq.len() > 3 { continue; }
-					if place != 1 && seq.is_empty() { continue; }
-					let front_slots: usize = if place == 0 { seq.iter().map(|i| if *i >= 19 { 2 } else { 1 }).sum() } else { 0 };
-					let x = Bx { off: front_slots as u16, fixed: None };
-					let menu = pool_menu(&x, wide);
-					let extra: Vec<K> = seq.iter().map(|i| menu[*i].clone()).collect();
-					let desc = format!("pool = {} {:?}", ["<these> ++ base ++ names", "base ++ <these> ++ names", "base ++ first name ++ <these> ++ other names", "base ++ names ++ <these>"][place], extra);
-					let mut l = Layout::default();
-					match place { 0 => l.front = extra, 1 => l.mid = extra, 2 => l.after_first_name = extra, _ => l.back = extra }
-					check_as(t, &desc, &pool_case(&x, l), true, !seq.is_empty());
+		for len in 0..=max {
+			let mut seq = vec![0usize; len];
+			loop {
+				if seq.iter().any(|i| *i >= 19) || !need_wide {
+					for place in 0..4 {
+						if place != 1 && (len > 3 || len == 0) { continue; }
+						let front_slots: usize = if place == 0 { seq.iter().map(|i| if *i >= 19 { 2 } else { 1 }).sum() } else { 0 };
+						let x = Bx { off: front_slots as u16, fixed: None };
+						let menu = pool_menu(&x, wide);
+						let extra: Vec<K> = seq.iter().map(|i| menu[*i].clone()).collect();
+						let desc = format!("pool = {} where <these> = {:?}", ["<these> ++ base ++ names", "base ++ <these> ++ names", "base ++ first name ++ <these> ++ other names", "base ++ names ++ <these>"][place], extra);
+						let mut l = Layout::default();
+						match place { 0 => l.front = extra, 1 => l.mid = extra, 2 => l.after_first_name = extra, _ => l.back = extra }
+						check_as(t, &desc, &pool_case(&x, l), true, len > 0);
+					}
 				}
+				// next sequence of this length
+				let mut k = len;
+				while k > 0 && seq[k - 1] == n - 1 { seq[k - 1] = 0; k -= 1; }
+				if k == 0 { break; }
+				seq[k - 1] += 1;
 			}
-			if left == 0 { return; }
-			for i in 0..n { seq.push(i); rec(t, n, left - 1, seq, wide, need_wide); seq.pop(); }
 		}
-		rec(t, n, max, &mut seq, wide, need_wide);
 	}
 
 	/// Bound: see `pools_without_long_double` in rawcls_group.py
@@ -830,6 +836,9 @@
 		selections(&menu, 2, &mut |sel| check(&mut t, &format!("class attributes: {}", shorts(sel)), &with_class_attrs(sel)));
 		let reps = class_reps(&X0);
 		selections(&reps, 3, &mut |sel| if sel.len() == 3 { check(&mut t, &format!("class attributes: {}", shorts(sel)), &with_class_attrs(sel)) });
+		let half: Vec<At> = menu.iter().skip(1).step_by(2).cloned().collect();
+		println!("INFO class_level_attributes menu {} shapes, {} representatives (fullest shape of every kind + 3 unknown), {} in the half menu", menu.len(), reps.len(), half.len());
+		selections(&half, 3, &mut |sel| if sel.len() == 3 { check(&mut t, &format!("class attributes: {}", shorts(sel)), &with_class_attrs(sel)) });
 		t.finish();
 	}
 
@@ -838,6 +847,7 @@
 	fn field_and_method_attributes() {
 		let mut t = Tally::new("field_and_method_attributes");
 		let (fm, mm) = (field_attr_menu(&X0), method_attr_menu(&X0));
+		println!("INFO field_and_method_attributes field menu {} shapes, method menu {} shapes", fm.len(), mm.len());
 		// one field / one method with up to two attributes
 		selections(&fm, 2, &mut |sel| { let mut c = plain(); c.fields = vec![field(&X0, sel.to_vec())]; check(&mut t, &format!("field attributes: {}", shorts(sel)), &c); });
 		selections(&mm, 2, &mut |sel| { let mut c = plain(); c.methods = vec![method(&X0, sel.to_vec())]; check(&mut t, &format!("method attributes: {}", shorts(sel)), &c); });
@@ -873,6 +883,7 @@
 	fn code_attributes() {
 		let mut t = Tally::new("code_attributes");
 		let menu = code_attr_menu(&X0);
+		println!("INFO code_attributes menu {} shapes", menu.len());
 		let codes: Vec<Vec<u8>> = vec![vec![0xb1], vec![0x2a, 0xb7, 0, B_MTH as u8, 0xb1], vec![0x03, 0xaa, 0, 0, 0, 0, 0, 12, 0, 0, 0, 0, 0, 0, 0, 0, 0xb1]];
 		let tables: Vec<Vec<[u16; 4]>> = vec![vec![], vec![[0, 1, 1, 0]], vec![[0, 1, 1, B_CLS], [0, 65535, 65535, 0]], vec![[1, 2, 3, B_CLS]; 3]];
 		let maxes = [(0u16, 0u16), (1, 1), (65535, 65535), (2, 65535)];
@@ -914,6 +925,7 @@
 	fn stack_map_frames() {
 		let mut t = Tally::new("stack_map_frames");
 		let (menu, reps) = (frame_menu(&X0), frame_reps(&X0));
+		println!("INFO stack_map_frames menu {} frames, {} representatives", menu.len(), reps.len());
 		let run = |t: &mut Tally, frames: Vec<Fr>| {
 			let desc = format!("method with Code with StackMapTable {frames:?}");
 			check(t, &desc, &with_method_attrs(vec![code(vec![at(Body::StackMapTable(frames))])]));
@@ -934,6 +946,7 @@
 		let mut t = Tally::new("annotations_and_element_values");
 		let x = &X0;
 		let (evs, reps) = (ev_menu(x), ev_reps(x));
+		println!("INFO annotations_and_element_values {} element values, type annotation menus {} / {} / {} / {}", evs.len(), tann_menu(x, 0).len(), tann_menu(x, 1).len(), tann_menu(x, 2).len(), tann_menu(x, 3).len());
 		let sig = at(Body::Signature(B_SIG));
 		// hosts of one attribute: class, field, method, record component
 		let host = |t: &mut Tally, a: At, what: &str| {
@@ -1041,7 +1054,7 @@
 			match shape {
 				0 => { c.fields = vec![field(x, fa.clone())]; c.methods = vec![method(x, with_code)]; },
 				1 => { c.fields = vec![field(x, vec![]), field(x, fa.clone())]; c.methods = vec![method(x, with_code), method(x, oa.clone())]; },
-				2 => { c.methods = vec![method(x, oa.clone()), method(x, with_code.clone()), method(x, with_code)]; c.fields = vec![field(x, fa.clone()), field(x, fa.clone())]; },
+				2 => { let mut second = with_code.clone(); for a in second.iter_mut() { *a = again(a, 2); } c.methods = vec![method(x, oa.clone()), method(x, second), method(x, with_code)]; c.fields = vec![field(x, fa.clone()), field(x, fa.clone())]; },
 				3 => { c.methods = vec![method(x, with_code)]; c.ifaces = vec![B_CLS]; c.sup = B_CLS; },
 				4 => { c.fields = vec![field(x, fa.clone()), field(x, vec![]), field(x, fa.clone())]; },
 				_ => {
@@ -1052,6 +1065,17 @@
 			check_as(&mut t, &format!("class attribute list {ci} x field attribute list {fi} x method attribute list {oi} x nested attribute list {ni}, shape {shape}: class [{}] field [{}] method [{}] nested [{}]",
 				shorts(ca), shorts(fa), shorts(oa), shorts(na)), &c, true, true);
 		}}}}}
+		// one attribute on the class, on a field and on a method, each named through its own Utf8 entry with the same content
+		let mut shared = anno_attrs(x);
+		shared.extend([at(Body::Signature(B_SIG)), at(Body::Deprecated), at(Body::Synthetic), tann_attrs(x, 2)[2].clone(), unknown("Foo", &[1])]);
+		for a in &shared { for b in &shared {
+			let mut c = with_class_attrs(&[a.clone(), again(b, 4)]);
+			if a.name == b.name { c.attrs.pop(); }
+			c.fields = vec![field(x, vec![again(a, 2)]), field(x, vec![a.clone(), again(b, 2)])];
+			if a.name == b.name { c.fields[1].attrs.pop(); }
+			c.methods = vec![method(x, vec![again(a, 3), code(vec![])]), method(x, vec![again(&code(vec![again(&unknown("Foo", &[]), 9)]), 2), again(b, 3)])];
+			check_as(&mut t, &format!("class, two fields and two methods with {} and {}, the names given by different Utf8 entries of equal content", short(a), short(b)), &c, true, true);
+		}}
 		t.finish();
 	}
 
@@ -1147,13 +1171,13 @@
 	#[test]
 	fn counts_at_their_bounds_with_long_double_pool() {
 		let mut t = Tally::new("counts_at_their_bounds_with_long_double_pool");
+		let mut c = plain(); c.layout.back = vec![K::Long(0, 0)];
+		check_as(&mut t, "no attribute at all, a Long as last entry (constant_pool_count 23)", &c, true, true);
 		// constant_pool_count 65535 reached with 8-byte constants: 20 base + 1 name + 32756 Long (65512 slots) + 1 Integer = 65534 slots
 		let mut c = plain(); c.layout.mid = vec![K::Long(1, 2); 32756]; c.layout.back = vec![K::Int(5)]; c.attrs = vec![at(Body::SourceFile(B_X))];
 		check_as(&mut t, "constant_pool_count 65535 with 32756 Long entries between base and names", &c, true, true);
 		let mut c = plain(); c.layout.back = vec![K::Double(1, 2); 32756]; c.layout.mid = vec![K::Int(5)]; c.attrs = vec![at(Body::SourceFile(B_X))];
 		check_as(&mut t, "constant_pool_count 65535 with 32756 Double entries at the end (the last one in slots 65533, 65534)", &c, true, true);
-		let mut c = plain(); c.layout.back = vec![K::Long(0, 0)];
-		check_as(&mut t, "no attribute at all, a Long as last entry (constant_pool_count 23)", &c, true, true);
 		t.finish();
 	}
 
@@ -1218,7 +1242,7 @@
 					value_clauses("the value read", &v, Some(&bytes), ["(2)", "(3)", "(4)"], &mut bad);
 				},
 			}
-			if !bad.is_empty() { t.fail(format!("{desc} file[{} bytes]={}", bytes.len(), hex(&bytes)), &bad.join(" || ")); }
+			if !bad.is_empty() { t.fail(desc, &format!("{} || the file ({} bytes) = {}", bad.join(" || "), bytes.len(), hex(&bytes))); }
 		}
 		t.finish();
 	}
